@@ -246,3 +246,79 @@ def gen_world(rng, lang="rust", n_adv=None, force=None, features=("resource", "f
     lines += L
     meta = {"scopes": scopes, "adversarial": adv, "world": w, "ns": ns, "pkg": pkg, "ifaces": ifaces}
     return "\n".join(lines) + "\n", meta
+
+
+# ---------------------------------------------------------------------------------------------------------
+# multi-package worlds: cross-package type references with deliberately colliding namespace components
+NS_POOL = ["wasi", "io", "host", "streams", "my", "exports", "types", "a"]
+
+
+def multi_pkg_world(rng=None, names=None, export=None, deep=None, sibling=None, resources=True):
+    """A world over three packages A:B (user, interfaces C and C2), D:E (interface F) and G:H (interface I):
+    C and C2 `use` named types (record, enum, variant, flags, resource) of D:E/F in aliases, fields, payloads,
+    parameters and results; F optionally uses a record of G:H/I (3 deep).  `names` = (A,B,C,C2,D,E,F,G,H,I) or drawn
+    from the small shared pool NS_POOL so that every shadowing pattern between namespace components occurs.
+    `export`: the world also exports C2 (which has no resource); `sibling`: name of an extra interface of A:B."""
+    if names is None:
+        while True:
+            names = tuple(rng.choice(NS_POOL) for _ in range(10))
+            A, B, C, C2, D, E, F, G, H, I = names
+            if len({(A, B), (D, E), (G, H)}) == 3 and C != C2: break
+    A, B, C, C2, D, E, F, G, H, I = names
+    if export is None: export = rng.random() < 0.6
+    if deep is None: deep = rng.random() < 0.5
+    if sibling is None and rng is not None and rng.random() < 0.4:
+        sibling = rng.choice([x for x in NS_POOL if x not in (C, C2)] or [None])
+    e = esc
+    use3 = f"    use {e(G)}:{e(H)}/{e(I)}.{{t3}};\n" if deep else ""
+    fld3 = ", b: t3" if deep else ""
+    res = "    resource res { m: func() -> u32; }\n" if resources else ""
+    L = [f"package {e(A)}:{e(B)};", ""]
+    def user_iface(name, with_res):
+        names_used = "rec, en, va, fl" + (", res" if with_res else "")
+        out = [f"interface {e(name)} {{", f"  use {e(D)}:{e(E)}/{e(F)}.{{{names_used}}};",
+               "  type al = rec;", "  record r2 { x: rec, y: option<en>, z: list<al> }",
+               "  variant v2 { one(va), two(fl), three }",
+               "  f1: func(p: rec, q: list<en>) -> va;", "  f2: func(p: r2, q: fl) -> result<v2, en>;",
+               "  f3: func(p: al) -> tuple<rec, en>;"]
+        if with_res: out.append("  f4: func(p: borrow<res>, q: own<res>) -> own<res>;")
+        out.append("}")
+        return out
+    L += user_iface(C, resources)
+    L += user_iface(C2, False)
+    if sibling: L += [f"interface {e(sibling)} {{ record sib {{ s: u32 }} g: func(p: sib) -> sib; }}"]
+    L += [f"world w {{", f"  import {e(C)};"] + ([f"  import {e(sibling)};"] if sibling else []) + \
+         ([f"  export {e(C2)};"] if export else [f"  import {e(C2)};"]) + ["}", ""]
+    L += [f"package {e(D)}:{e(E)} {{", f"  interface {e(F)} {{", use3.rstrip("\n") if use3 else "",
+          f"    record rec {{ a: u32{fld3} }}", "    enum en { x, y }", "    variant va { n, s(string) }",
+          "    flags fl { p, q }", res.rstrip("\n"), "  }", "}"]
+    if deep:
+        L += [f"package {e(G)}:{e(H)} {{", f"  interface {e(I)} {{ record t3 {{ z: u8 }} }}", "}"]
+    wit = "\n".join(x for x in L if x != "") + "\n"
+    return wit, {"adversarial": [{"slot": "namespaces", "name": "/".join(names), "pool": "ns-pool"}], "names": names,
+                 "export": export, "deep": deep, "sibling": sibling}
+
+
+def shadow_patterns():
+    """the must-run namespace-shadowing patterns (names = A,B,C,C2,D,E,F,G,H,I)"""
+    P = {
+        "dep-ns = user package name": ("my", "wasi", "host", "host2", "wasi", "io", "streams", "x", "y", "z"),
+        "dep-ns = user interface name": ("my", "pkg", "wasi", "host2", "wasi", "io", "streams", "x", "y", "z"),
+        "dep-ns = user namespace (same ns, other package)": ("wasi", "host", "api", "api2", "wasi", "io", "streams", "x", "y", "z"),
+        "user-ns = dep package name": ("io", "host", "api", "api2", "wasi", "io", "streams", "x", "y", "z"),
+        "user package name = dep interface name": ("my", "streams", "api", "api2", "wasi", "io", "streams", "x", "y", "z"),
+        "dep-ns = exports": ("my", "pkg", "api", "api2", "exports", "io", "streams", "x", "y", "z"),
+        "user interface = exports": ("my", "pkg", "exports", "api2", "wasi", "io", "streams", "x", "y", "z"),
+        "3-deep: third ns = second package name": ("my", "pkg", "api", "api2", "wasi", "io", "streams", "io", "deep", "types"),
+        "3-deep: third ns = user package name": ("my", "deep", "api", "api2", "wasi", "io", "streams", "deep", "x", "types"),
+        "all distinct (control)": ("aa", "bb", "cc", "cc2", "dd", "ee", "ff", "gg", "hh", "ii"),
+    }
+    out = []
+    for note, names in P.items():
+        for export in (False, True):
+            out.append((note + (", exported" if export else ", imported"),
+                        multi_pkg_world(names=names, export=export, deep=True, sibling=None)))
+    # a sibling interface of the user's package named like the dependency's namespace
+    out.append(("sibling interface named like the dependency namespace",
+                multi_pkg_world(names=("my", "pkg", "host", "host2", "wasi", "io", "streams", "x", "y", "z"), export=False, deep=False, sibling="wasi")))
+    return out
